@@ -99,6 +99,9 @@ type Run struct {
 	startupCmds    int
 	lastFaultAt    time.Time
 	nfHashes       map[string]bool
+	capLoaded      *HAConfig
+	startupDone    bool
+	reloadPendingBefore bool
 	sig            []string
 }
 
